@@ -189,6 +189,37 @@ def generate(repo: str) -> tuple[str, str]:
     items_loop = [n for n in find_nodes(fn, ast.For) if _src(n.iter) == "self.items"]
     if len(items_loop) != 1:
         raise TranslateError("CartesianProductCombinator._product: `for key in self.items` not found")
+    # ---- combine() of both classes: shape only -----------------------------------------------------------
+    def check_combine(cls: str, add_nested: str, add_flat: str, product: str) -> None:
+        fn_c = parse_function(comb_py, "combine", cls=cls)
+        body_c = [st for st in fn_c.body if not (isinstance(st, ast.Expr) and isinstance(st.value, ast.Constant))]
+        if len(body_c) != 1 or not isinstance(body_c[0], ast.If):
+            raise TranslateError(f"{cls}.combine: expected one if/elif/else chain")
+        i1 = body_c[0]
+        if _src(i1.test) != "(c := self.get_combinator(port_name))" or len(i1.body) != 1 or not isinstance(i1.body[0], ast.AsyncFor):
+            raise TranslateError(f"{cls}.combine: first branch is not `if c := self.get_combinator(port_name): async for schema in …`")
+        loop = i1.body[0]
+        if _src(loop.iter) not in ("cast(AsyncIterable, c.combine(port_name, token))", "c.combine(port_name, token)") \
+                or _src(loop.target) != "schema":
+            raise TranslateError(f"{cls}.combine: the inner combinator is not consumed by `async for schema in c.combine(port_name, token)`")
+        want_prod = f"async for product in {product}:\n    yield product"
+        if [_src(x) for x in loop.body] != [add_nested, want_prod]:
+            raise TranslateError(f"{cls}.combine: nested branch is not `{add_nested}; async for product in {product}: yield product`")
+        if len(i1.orelse) != 1 or not isinstance(i1.orelse[0], ast.If):
+            raise TranslateError(f"{cls}.combine: `elif port_name in self.items` not found")
+        i2 = i1.orelse[0]
+        if _src(i2.test) != "port_name in self.items" or [_src(x) for x in i2.body] != [add_flat, want_prod]:
+            raise TranslateError(f"{cls}.combine: flat branch is not `{add_flat}; async for product in {product}: yield product`")
+        if len(i2.orelse) != 1 or not isinstance(i2.orelse[0], ast.Raise):
+            raise TranslateError(f"{cls}.combine: the final branch does not raise")
+
+    check_combine("DotProductCombinator", "self._add_to_list(schema, c.name, propagate=self._propagate)",
+                  "self._add_to_list(token, port_name, propagate=self._propagate)", "self._product()")
+    check_combine("CartesianProductCombinator", "self._add_to_list(schema, c.name, self.depth)",
+                  "self._add_to_list(token, port_name, self.depth)", "self._product(port_name, token)")
+    init = parse_function(comb_py, "__init__", cls="DotProductCombinator")
+    if "self._propagate: bool = True" not in [_src(x) for x in init.body]:
+        raise TranslateError("DotProductCombinator.__init__: `self._propagate: bool = True` not found (the model propagates)")
     # ---- CartesianProductCombinator._add_to_port ------------------------------------------------------
     fn = parse_function(comb_py, "_add_to_port", cls="CartesianProductCombinator")
     srcs = [_src(s) for s in fn.body]
